@@ -22,6 +22,7 @@ let op_of_json (j : json) : op =
   | "ext_remove" -> OExtRemove (jname (jfield j "n"))
   | "ext_db" -> OExtDb (jname (jfield j "h"), jstatus (jfield j "st"))
   | "restart" -> ORestart
+  | "restart_save" -> ORestartSave (jbool (jfield j "b"))
   | s -> raise (Model_error ("unknown op " ^ s))
 
 let result_name = function
@@ -35,8 +36,9 @@ let obs (s : state) : json =
                         | EDir -> JArr [of_bytes n; JStr "d"; of_int 0]) (disk s));
     ("db", of_list (fun (h, st) -> JArr [of_bytes h; JStr (match st with Pending -> "pending" | Finished -> "finished")]) (db s));
     ("completed", of_list of_bytes (completed s));
-    ("cache", of_list (fun (h, v) -> JArr [of_bytes h; of_bool v]) (cache s));
-    ("alive", of_bool (alive s)) ]
+    ("cache", of_list (fun (h, (kd, v)) -> JArr [of_bytes h; of_bool kd; of_bool v]) (cache s));
+    ("alive", of_bool (alive s));
+    ("save", of_bool (save s)) ]
 
 let () = serve (fun fn req ->
   match fn with
